@@ -322,9 +322,9 @@ func classifyC20(h History) c20Class {
 	// replay on the model only (set semantics) to see which boundaries the history crosses
 	var c c20Class
 	type m struct {
-		size  int64
-		live  int64
-		freed bool
+		size   int64
+		live   int64
+		freed  bool
 		allocs int64
 	}
 	ms := make([]m, len(h.Instances))
@@ -549,23 +549,23 @@ loop:
 			"rule": fmt.Sprintf("one seeded history per index: 1-3 interleaved allocators with min in %v and 1..%d identifiers (10 %% of them with sizes next to powers of two up to 257), up to 6*size steps of Allocate / Allocate_inRange / FreeID in fill, free and mixed phases (every 50th history is a churn history of 600-4600 steps), "+
 				"then a drain phase (Allocate until failure); non-trivial = the history reaches exhaustion, re-allocates after a free, or allocates more than size identifiers in total (scan offset wraps); "+
 				"distinct = distinct FNV-64 hashes of (instances, steps) among those", c20mins, maxSize),
-			"samples":                  samples,
-			"steps_executed":           steps,
-			"nontrivial_histories":     nontriv,
-			"histories_with_exhaustion": cEx,
+			"samples":                          samples,
+			"steps_executed":                   steps,
+			"nontrivial_histories":             nontriv,
+			"histories_with_exhaustion":        cEx,
 			"histories_with_free_then_realloc": cFr,
 			"histories_with_offset_wrap":       cWr,
 			"histories_with_allocate_in_range": cIr,
-			"histories_per_hour":       float64(histories) / wall * 3600,
-			"known_findings_hit":       len(knownHit),
-			"fault_kinds_injected":     map[string]int{},
-			"fault_kinds_note":         "none available: IDGenerator is a single-owner object with no I/O, clock, lock or peer (its mutex is commented out and C20 is about one sequence of operations); the only quantifier is the operation history",
-			"simulated_time":           "none (no timers in the object)",
-			"real_vs_stub":             map[string]string{"uePolicyContainer.IDGenerator": "real code from /repo working tree", "reference model": "set of live identifiers in the harness", "scheduler": "history and instance interleaving decided by the seeded generator"},
-			"invariants_per_step":      []string{"returned id within [min,max]", "returned id not live", "Allocate fails only when all identifiers are live"},
-			"end_of_history":           "drain: every non-live identifier is handed out exactly once within (size-|live|) Allocate calls, the next Allocate fails (bounded liveness, and 'a freed identifier becomes allocatable again')",
-			"hang_handling":            "every library call is timed; a call that exceeds 5 s is re-run from its history prefix in a fresh process and reported as no-return only if it hangs there too",
-			"determinism":              "history is a pure function of (seed, index); replay file re-executed in a fresh process before any VIOLATION is printed",
+			"histories_per_hour":               float64(histories) / wall * 3600,
+			"known_findings_hit":               len(knownHit),
+			"fault_kinds_injected":             map[string]int{},
+			"fault_kinds_note":                 "none available: IDGenerator is a single-owner object with no I/O, clock, lock or peer (its mutex is commented out and C20 is about one sequence of operations); the only quantifier is the operation history",
+			"simulated_time":                   "none (no timers in the object)",
+			"real_vs_stub":                     map[string]string{"uePolicyContainer.IDGenerator": "real code from /repo working tree", "reference model": "set of live identifiers in the harness", "scheduler": "history and instance interleaving decided by the seeded generator"},
+			"invariants_per_step":              []string{"returned id within [min,max]", "returned id not live", "Allocate fails only when all identifiers are live"},
+			"end_of_history":                   "drain: every non-live identifier is handed out exactly once within (size-|live|) Allocate calls, the next Allocate fails (bounded liveness, and 'a freed identifier becomes allocatable again')",
+			"hang_handling":                    "every library call is timed; a call that exceeds 5 s is re-run from its history prefix in a fresh process and reported as no-return only if it hangs there too",
+			"determinism":                      "history is a pure function of (seed, index); replay file re-executed in a fresh process before any VIOLATION is printed",
 		},
 		Assumptions: []string{
 			"allocators with max < min are outside the property and are not generated",
